@@ -31,6 +31,11 @@ type Linear struct {
 	Filter  world.FilterSpec `json:"filter"`
 	Writers [][]CacheOp      `json:"writers"`
 	Readers [][]string       `json:"readers"` // per reader: "list" | "get:<ns>/<name>" | "scribble"
+	// CancelAtStep > 0: the cache's context is cancelled that many scheduler
+	// steps into the run - anywhere, also in the middle of a relist.  Operations
+	// may then fail; a failed write may or may not have been applied; every read
+	// that still succeeds must be a complete state.
+	CancelAtStep int `json:"cancel_at_step,omitempty"`
 	Sim     SimCfg           `json:"sim"`
 }
 
@@ -41,7 +46,8 @@ type linIn struct {
 }
 
 type linOut struct {
-	IDs []string // list result / get result (0 or 1 element)
+	IDs   []string // list result / get result (0 or 1 element)
+	Maybe bool     // a write that returned an error after the cancellation: applied or not
 }
 
 type histOp struct {
@@ -51,6 +57,7 @@ type histOp struct {
 	Call     int64
 	Ret      int64
 	Finished bool
+	Dropped  bool // a read that failed after the cancellation: says nothing
 }
 
 var lastHistory []histOp
@@ -139,6 +146,9 @@ func genC15(g GenCtx) interface{} {
 	}
 	sc.Sim = SimCfg{Strategy: randStrategy(rng, []string{"newCache>c.run", "runC15>func"}), PermuteMaps: true, MaxSteps: 100000, EstSteps: 1500}
 	sc.Sim.Strategy.StallPermille = 0
+	if rng.Intn(6) == 0 {
+		sc.CancelAtStep = 1 + rng.Intn(pickInt(rng, 200, 1000, 3000))
+	}
 	return sc
 }
 
@@ -240,6 +250,14 @@ func runC15(sci interface{}) {
 	var clock int64
 	tick := func() int64 { clock++; return clock }
 	var hist []*histOp
+	cancelled := false
+	if sc.CancelAtStep > 0 {
+		detsim.AtStep(detsim.Steps()+sc.CancelAtStep, "c15-cancel", func() {
+			cancelled = true
+			detsim.Count("probe:cache-context-cancelled-mid-run")
+			cancel()
+		})
+	}
 	left := len(sc.Writers) + len(sc.Readers)
 	done := make(chan struct{})
 	fin := func() {
@@ -272,7 +290,10 @@ func runC15(sci interface{}) {
 					_, err = c.Update(kcache.NewEvent(et, world.BuildMeta("pod", op.Obj)))
 				}
 				if err != nil {
-					detsim.Fail("cache-op-error", "%s on a running cache: %v", op.Op, err)
+					if !cancelled {
+						detsim.Fail("cache-op-error", "%s on a running cache: %v", op.Op, err)
+					}
+					h.Out.Maybe = true
 				}
 				h.Ret = tick()
 				h.Finished = true
@@ -292,7 +313,10 @@ func runC15(sci interface{}) {
 					h.In = linIn{Kind: "get", Key: key}
 					o, err := c.Get(parts[0], parts[1])
 					if err != nil {
-						detsim.Fail("cache-read-error", "Get on a running cache: %v", err)
+						if !cancelled {
+							detsim.Fail("cache-read-error", "Get on a running cache: %v", err)
+						}
+						h.Dropped = true
 					}
 					if o != nil {
 						h.Out.IDs = []string{world.IDOf(o)}
@@ -301,7 +325,10 @@ func runC15(sci interface{}) {
 					h.In = linIn{Kind: "list"}
 					objs, err := c.List()
 					if err != nil {
-						detsim.Fail("cache-read-error", "List on a running cache: %v", err)
+						if !cancelled {
+							detsim.Fail("cache-read-error", "List on a running cache: %v", err)
+						}
+						h.Dropped = true
 					}
 					for _, o := range objs {
 						if o == nil {
@@ -325,6 +352,9 @@ func runC15(sci interface{}) {
 		detsim.Fail("wedge", "cache clients did not finish")
 	}
 	for _, h := range hist {
+		if h.Dropped {
+			continue
+		}
 		lastHistory = append(lastHistory, *h)
 	}
 }
@@ -367,7 +397,30 @@ func parseID(id string) world.Spec {
 	return s
 }
 
+// linModel: the reference cache as a sequential specification.  It is
+// nondeterministic in one place only: a write that returned an error after the
+// context was cancelled may or may not have been applied.
 func linModel() porcupine.Model {
+	det := linDetModel()
+	nd := porcupine.NondeterministicModel{
+		Init: func() []interface{} { return []interface{}{det.Init()} },
+		Step: func(state, input, output interface{}) []interface{} {
+			ok, next := det.Step(state, input, output)
+			if !ok {
+				return nil
+			}
+			if out := output.(linOut); out.Maybe && next.(string) != state.(string) {
+				return []interface{}{state, next}
+			}
+			return []interface{}{next}
+		},
+		Equal:             det.Equal,
+		DescribeOperation: det.DescribeOperation,
+	}
+	return nd.ToModel()
+}
+
+func linDetModel() porcupine.Model {
 	return porcupine.Model{
 		Init: func() interface{} { return encodeState(jsonMarshal(lastFilter), nil) },
 		Step: func(state, input, output interface{}) (bool, interface{}) {
